@@ -396,7 +396,7 @@ def search(pid, tier, seed, escalate, hints):
 
 def resimulate(sc):
     """the recorded history of a witness scenario, rebuilt (solver-family scenario, or a fam_keys pair with its run operations)"""
-    if sc.get('flavour'):
+    if sc.get('flavour') and sc['flavour'] != 'keys':
         r = scen.run_impl(sc, keep_objects=True)
         return r['objects'][0], r['objects'][1]
     pt, els = scen.build(fam_keys.fix_opt(sc))
